@@ -34,7 +34,7 @@ def run(ctx):
                     "find does not change class membership or representatives (T1-style effect check)", "unite links the two roots (T3)"]
     ctx.clauses.append("the two partition types are sibling implementations: classes() and unite() agree in structure (T4 cross-check)")
     siblings_agree(ctx, "T4-siblings-agree", M + "Partition::<T>::classes", M + "IntPartition::classes", "classes ~ classes")
-    siblings_agree(ctx, "T4-siblings-agree", M + "PartitionImpl::<T>::unite", M + "IntPartitionImpl::unite", "unite ~ unite")
+    siblings_agree(ctx, "T4-siblings-agree", M + "PartitionImpl::<T>::unite", M + "IntPartitionImpl::unite", "unite ~ unite", compare_fields=True)
     st = [s for s in ctx.facts.statics if s.startswith(M)]
     ctx.require(not st, "T8-no-statics", M, "statics", "the module defines no static", "the partitions module defines statics (shared storage between instances): %s" % st)
     for d in ctx.facts.find(M):
